@@ -30,7 +30,7 @@
 -/
 namespace Kopf.C10
 
-/-- time in ticks (1 tick = 1/64 s in the harness); plain `Int` so that `omega` sees it -/
+-- Time is in ticks (1 tick = 1/64 s in the harness), typed plain `Int` so that `omega` sees it.
 
 inductive ErrorsMode where
   | ignored | temporary | permanent
